@@ -38,6 +38,7 @@ func init() {
 		Run:         runC17,
 	})
 	c17Fn = eng.NewKind(c, "fn", judgeStrFn)
+	c17Hist = eng.NewKind(c, "one-runner", judgeStrHist)
 }
 
 // ---- naive references -------------------------------------------------------
@@ -531,8 +532,81 @@ var c17Patterns = []string{"a", "^a", "a$", "^a*$", "ab", "a|b", "[ab]+", "^[ab]
 	// the dot and line breaks
 	"a.b", "^.$", ".", "a.", "(?s)a.b", "(?m)^b$", "^b$"}
 
+// StrHistCase: one runner answers the same question for every pair of arguments from a small set, one
+// after the other (forwards or backwards; arguments from the data or written as literals): every answer
+// must be the one a fresh runner gives.
+type StrHistCase struct {
+	Form string `json:"form"` // with %s and %t
+	Rev  bool   `json:"rev"`
+	Lit  bool   `json:"lit"`
+}
+
+var c17Hist *eng.Kind[StrHistCase]
+
+func judgeStrHist(c StrHistCase) *eng.Fail {
+	strs := allStrings([]string{"a", "b", " "}, 3)
+	strs = append(strs, ",", "a,b", "[a", "b]", "a  b", "\t", "a\tb", "%v", "a b a")
+	var pairs [][2]string
+	for _, s := range strs {
+		for _, t := range strs {
+			pairs = append(pairs, [2]string{s, t})
+		}
+	}
+	if c.Rev {
+		for i, j := 0, len(pairs)-1; i < j; i, j = i+1, j-1 {
+			pairs[i], pairs[j] = pairs[j], pairs[i]
+		}
+	}
+	r := formula.NewRunner()
+	data := map[string]interface{}{}
+	r.SetThis(data)
+	quote := func(x string) string { return "'" + strings.Replace(x, "\t", "\\t", -1) + "'" }
+	var prev [2]string
+	for i, pr := range pairs {
+		src := strings.Replace(strings.Replace(c.Form, "%s", "s", -1), "%t", "t", -1)
+		if c.Lit {
+			src = strings.Replace(strings.Replace(c.Form, "%s", quote(pr[0]), -1), "%t", quote(pr[1]), -1)
+		}
+		fresh, err := evalWith(src, map[string]interface{}{"s": pr[0], "t": pr[1]})
+		if err != nil {
+			return eng.F("harness/case", "%s: %v", src, err)
+		}
+		p, err := cachedParse(src)
+		if err != nil {
+			return eng.F("harness/case", "%s: %v", src, err)
+		}
+		data["s"], data["t"] = pr[0], pr[1]
+		o := safeResolve(r, bg, p.Expression)
+		if o.panicked || fresh.panicked {
+			return eng.F("C17/panic", "%s: %s%s", src, o.panicMsg, fresh.panicMsg)
+		}
+		if (o.err == nil) != (fresh.err == nil) || show(o.val) != show(fresh.val) {
+			return eng.F("C17/answer-depends-on-history", "%s with s=%q t=%q on a runner that has answered %d such questions before (the last for s=%q t=%q): %s (%v); a fresh runner gives %s (%v)", src, pr[0], pr[1], i, prev[0], prev[1], show(o.val), o.err, show(fresh.val), fresh.err)
+		}
+		prev = pr
+	}
+	outcome("one-runner " + c.Form)
+	return nil
+}
+
 func runC17(w *eng.W) {
 	W = w
+	for _, form := range []string{"startWith(%s, %t)", "endWith(%s, %t)", "contains(%s, %t)", "find(%s, %t)", "regexp(%s, %t)", "replace(%s, %t, 'x')", "replace('a b', %s, %t)", "join([%s, %t], ' ')", "includes([%s, 'a b'], %t)", "lpad(%s, %t, 5)", "trim(%s) + '|' + trim(%t)", "left(%s, len(%t))", "%s + %t", "[%s] == %t"} {
+		for _, rev := range []bool{false, true} {
+			for _, lit := range []bool{false, true} {
+				if !w.Take() {
+					continue
+				}
+				c := StrHistCase{Form: form, Rev: rev, Lit: lit}
+				w.State(2401)
+				w.Trans(2401)
+				w.Trace(1)
+				w.Note("leg:one-runner", 1)
+				w.Sample("one-runner", c)
+				c17Hist.Do(w, c)
+			}
+		}
+	}
 	q := w.Quick()
 	sym := []string{"a", "b", "A", " ", "中"}
 	S := allStrings(sym, 4)
